@@ -25,7 +25,7 @@ THEOREMS = [
 ]
 RULE = ("Pauli lists on 0-8 qubits with all four phases; arbitrary index subsets/orders (restrict), arbitrary hashable labels "
         "(decompose), final circuits interleaving fresh qubits among the originals across registers (expand), plus count-mismatch and "
-        "missing-qubit requests; non-trivial = some non-identity letter; distinct by payload")
+        "missing-qubit requests; expand call sequences (expand, edit the returned or the input list in place, expand again); non-trivial = some non-identity letter; distinct by payload")
 ASSUMPTIONS = ["Qiskit PauliList label order (little endian) and group-phase convention are undone by the adapter",
                "qubit identity (Python object identity of Qubit) is modelled by integer tokens"]
 PH = ["", "-i", "-", "i"]
@@ -53,7 +53,66 @@ def _rand_obs(rng, n, k, phases=True):
     return [{"l": "".join(rng.choice("IXYZ") for _ in range(n)), "p": rng.randrange(4) if phases else 0} for _ in range(k)]
 
 
+def _edit_for(target, how, width, k):
+    e = {"target": target, "how": how}
+    if how == "setitem":
+        e["idx"] = k
+        e["pauli"] = {"l": "".join("YZX"[(i + k) % 3] for i in range(width)), "p": 2}
+    return e
+
+
+def _seq_cases():
+    """Deterministic family (seed independent): call SEQUENCES around expand_observables with observables that carry every phase --
+    expand onto a first final circuit, then edit ONE of the two lists in place (reset the phases as partition_problem requires, shift
+    them, or overwrite an entry), then expand the input onto a second final circuit.  The list that was not edited must still read what
+    it read before, and every expansion must carry the letters and the phase its input had when it was expanded."""
+    import random
+    r = random.Random(1717)
+    out = []
+    combos = [(t, h) for t in ("result", "input") for h in ("phase0", "phase_plus1", "setitem")]
+    for j in range(14):
+        n = 1 + j % 4
+        fresh_a, fresh_b = j % 3, (j + 1) % 4
+        k = 1 + j % 3
+        # all four phases occur in every list of two or more entries; the first entry always has a non-trivial phase
+        obs = [{"l": "".join(r.choice("IXYZ") for _ in range(n)), "p": (1 + j + i) % 4 if i else 1 + j % 3} for i in range(k)]
+        la = [["o", i] for i in range(n)] + [["f", i] for i in range(fresh_a)]
+        lb = [["o", i] for i in range(n)] + [["f", i] for i in range(fresh_b)]
+        r.shuffle(la); r.shuffle(lb)
+        regs = [n] if j % 2 else ([1, n - 1] if n > 1 else [1])
+        target, how = combos[j % len(combos)]
+        width = len(la) if target == "result" else n
+        out.append(("expand_seq", {"n": n, "obs": obs, "layout": la, "layout_b": lb, "regs": regs, "final_regs": bool(j % 3),
+                                   "clbits": 0, "creg": 0, "edit": _edit_for(target, how, width, j % k), "always_oracle": True}))
+    return out
+
+
+def _rand_seq_cases(rng, tier):
+    for _ in range(30 if tier == "quick" else 600):
+        n = rng.randint(1, 6)
+        la = [["o", i] for i in range(n)] + [["f", i] for i in range(rng.randint(0, 3))]
+        lb = [["o", i] for i in range(n)] + [["f", i] for i in range(rng.randint(0, 3))]
+        rng.shuffle(la); rng.shuffle(lb)
+        obs = _rand_obs(rng, n, rng.randint(1, 4))
+        regs, left = [], n
+        while left > 0:
+            c = rng.randint(1, left)
+            regs.append(c)
+            left -= c
+        target = rng.choice(["result", "input"])
+        yield ("expand_seq", {"n": n, "obs": obs, "layout": la, "layout_b": lb, "regs": regs, "final_regs": rng.random() < 0.5,
+                              "clbits": rng.choice([0, 0, 1]), "creg": rng.choice([0, 0, 2]),
+                              "edit": _edit_for(target, rng.choice(["phase0", "phase_plus1", "setitem"]),
+                                                len(la) if target == "result" else n, rng.randrange(len(obs)))})
+
+
 def cases(rng, tier):
+    yield from _seq_cases()
+    yield from _main_cases(rng, tier)
+    yield from _rand_seq_cases(rng, tier)   # after all other cases: their generator stream is unchanged
+
+
+def _main_cases(rng, tier):
     N = 150 if tier == "quick" else 3000
     for _ in range(N):
         n = rng.randint(1, 8)
@@ -106,12 +165,18 @@ def cases(rng, tier):
 
 
 def _expand_objs(payload):
-    from qiskit.circuit import QuantumCircuit, QuantumRegister, Qubit
+    from qiskit.circuit import QuantumCircuit, QuantumRegister
     regs = [QuantumRegister(c, f"r{i}") for i, c in enumerate(payload["regs"])]
     orig = QuantumCircuit(*regs)
+    return orig, _final_for(orig, regs, payload["layout"], payload)
+
+
+def _final_for(orig, regs, layout, payload):
+    """A final circuit holding the qubit objects of `orig` at the positions given by `layout`, fresh qubits elsewhere."""
+    from qiskit.circuit import QuantumCircuit, Qubit
     final = QuantumCircuit()
     bits = []
-    for t, i in payload["layout"]:
+    for t, i in layout:
         bits.append(orig.qubits[i] if t == "o" else Qubit())
     final.add_bits(bits)
     if payload.get("final_regs"):
@@ -124,7 +189,27 @@ def _expand_objs(payload):
     if payload.get("creg"):
         from qiskit.circuit import ClassicalRegister
         final.add_register(ClassicalRegister(payload["creg"], "meas"))
-    return orig, final
+    return final
+
+
+def _apply_edit(lst, edit):
+    """An in-place edit of a PauliList through its public interface."""
+    from qiskit.quantum_info import Pauli
+    if edit["how"] == "phase0":
+        lst.phase = 0
+    elif edit["how"] == "phase_plus1":
+        lst.phase = (lst.phase + 1) % 4
+    else:
+        lst[edit["idx"]] = Pauli(PH[edit["pauli"]["p"]] + edit["pauli"]["l"][::-1])
+
+
+def _edited(obs, edit):
+    """The same edit on the plain letters/phase records."""
+    if edit["how"] == "phase0":
+        return [{"l": o["l"], "p": 0} for o in obs]
+    if edit["how"] == "phase_plus1":
+        return [{"l": o["l"], "p": (o["p"] + 1) % 4} for o in obs]
+    return [dict(edit["pauli"]) if i == edit["idx"] else dict(o) for i, o in enumerate(obs)]
 
 
 def model_line(kind, payload):
@@ -156,6 +241,16 @@ def run_real(kind, payload):
         return {"ok": [[payload["labels"][labels.index(l)], _canon_paulis(v)] for l, v in out.items()]}
     orig, final = _expand_objs(payload)
     nq = len(payload["obs"][0]["l"])
+    if kind == "expand_seq":
+        pl = _plist(payload["obs"], nq)
+        out_a = expand_observables(pl, orig, final)
+        rec = {"first": _canon_paulis(out_a)}
+        _apply_edit(out_a if payload["edit"]["target"] == "result" else pl, payload["edit"])
+        rec["input_after"] = _canon_paulis(pl)
+        rec["result_after"] = _canon_paulis(out_a)
+        final_b = _final_for(orig, list(orig.qregs), payload["layout_b"], payload)
+        rec["second"] = _canon_paulis(expand_observables(pl, orig, final_b))
+        return {"ok": rec}
     out = expand_observables(_plist(payload["obs"], nq), orig, final)
     return {"ok": _canon_paulis(out)}
 
@@ -167,6 +262,8 @@ def model_canon(kind, payload, out):
 
 
 def compare(kind, payload, real, model):
+    if kind == "expand_seq" and isinstance(real.get("ok"), dict):
+        real = {"ok": real["ok"]["first"]}    # the model describes the first expansion; the rest of the sequence is judged by the oracle
     if real != model:
         return f"real={json.dumps(real)[:300]} model={json.dumps(model)[:300]}"
     return None
@@ -218,9 +315,30 @@ def oracle(kind, payload):
         return None if real.get("error") == "ValueError" else f"invalid expansion request not refused with ValueError: {real}"
     if "error" in real:
         return f"valid expansion raised {real['error']}"
-    exp = []
-    for o in payload["obs"]:
-        exp.append({"l": "".join(o["l"][i] if t == "o" else "I" for t, i in layout), "p": o["p"]})
+
+    def expected(obs, lay):
+        return [{"l": "".join(o["l"][i] if t == "o" else "I" for t, i in lay), "p": o["p"]} for o in obs]
+    exp = expected(payload["obs"], layout)
+    if kind == "expand_seq":
+        rec, edit = real["ok"], payload["edit"]
+        if rec["first"] != exp:
+            return f"expansion gives {rec['first']}, expected {exp}"
+        layout_b = [tuple(t) for t in payload["layout_b"]]
+        if edit["target"] == "result":
+            # only the returned list was edited: the caller's observables are what they were, and so is their next expansion
+            if rec["input_after"] != payload["obs"]:
+                return (f"after the RETURNED list was edited in place ({edit['how']}) the input observables, never touched, read "
+                        f"{rec['input_after']} instead of {payload['obs']}: the expansion shares state with its input")
+            exp_b = expected(payload["obs"], layout_b)
+        else:
+            # only the input list was edited after the call: the expansion returned earlier keeps the letters and phase it was given
+            if rec["result_after"] != exp:
+                return (f"after the INPUT list was edited in place ({edit['how']}) the expansion returned before reads "
+                        f"{rec['result_after']} instead of {exp}: it does not keep the phase/letters of the observables it expanded")
+            exp_b = expected(_edited(payload["obs"], edit), layout_b)
+        if rec["second"] != exp_b:
+            return f"second expansion (after {edit['how']} on the {edit['target']} list) gives {rec['second']}, expected {exp_b}"
+        return None
     return None if real["ok"] == exp else f"expansion gives {real['ok']}, expected {exp}"
 
 
